@@ -11,18 +11,18 @@ namespace RRule
 
 inductive Family where
   | daily | weekly | yearlyMonthly | monthlyNth | yearlyNth | yearlyBymonthNth | yearlyEaster | yearlyWeekno
-  | hourly | hourlyByhour | minutely | secondly
+  | hourly | hourlyByhour | minutely | minutelyByminute | secondly
   deriving Repr, DecidableEq, Inhabited
 
 def Family.name : Family → String
   | .daily => "daily" | .weekly => "weekly" | .yearlyMonthly => "yearly_monthly" | .monthlyNth => "monthly_nth"
   | .yearlyNth => "yearly_nth" | .yearlyBymonthNth => "yearly_bymonth_nth" | .yearlyEaster => "yearly_easter"
   | .yearlyWeekno => "yearly_weekno" | .hourly => "hourly" | .hourlyByhour => "hourly_byhour"
-  | .minutely => "minutely" | .secondly => "secondly"
+  | .minutely => "minutely" | .minutelyByminute => "minutely_byminute" | .secondly => "secondly"
 
 def Family.all : List Family :=
   [.daily, .weekly, .yearlyMonthly, .monthlyNth, .yearlyNth, .yearlyBymonthNth, .yearlyEaster, .yearlyWeekno,
-   .hourly, .hourlyByhour, .minutely, .secondly]
+   .hourly, .hourlyByhour, .minutely, .minutelyByminute, .secondly]
 
 /-- the optional list is given, non-empty, and satisfies `P` -/
 def someWith {α} (o : Option (List α)) (P : List α → Prop) : Prop :=
@@ -84,6 +84,8 @@ def SupportedBy (a : Args) : Family → Prop
       someWith a.byhour (fun l => ∀ x ∈ l, 0 ≤ x ∧ x ≤ 23) ∧ minutesOk a ∧ secondsOk a
   | .minutely => a.freq = 5 ∧ baseOk a ∧ a.byweekno = none ∧ a.byeaster = none ∧ a.byhour = none ∧
       a.byminute = none ∧ secondsOk a
+  | .minutelyByminute => a.freq = 5 ∧ baseOk a ∧ a.byweekno = none ∧ a.byeaster = none ∧ a.byhour = none ∧
+      someWith a.byminute (fun l => ∀ x ∈ l, 0 ≤ x ∧ x ≤ 59) ∧ secondsOk a
   | .secondly => a.freq = 6 ∧ baseOk a ∧ a.byweekno = none ∧ a.byeaster = none ∧ a.byhour = none ∧
       a.byminute = none ∧ a.bysecond = none
 
@@ -98,7 +100,7 @@ def Supported (a : Args) : Prop := ∃ f, SupportedBy a f
 
 /-- how many periods of the specification `n` turns of the generator's loop may correspond to -/
 def Family.periodsPerTurn : Family → Nat
-  | .hourly => 24 | .hourlyByhour => 48 | .minutely => 1440 | .secondly => 86400 | _ => 1
+  | .hourly => 24 | .hourlyByhour => 48 | .minutely => 1440 | .minutelyByminute => 1500 | .secondly => 86400 | _ => 1
 
 /-- the first `n` turns stay inside datetime's range (for BYEASTER: inside 1583..4099) -/
 def inRange (a : Args) (f : Family) (n : Nat) : Prop :=
@@ -114,6 +116,9 @@ def inRange (a : Args) (f : Family) (n : Nat) : Prop :=
   | .hourlyByhour =>
       Spec.RRule.startOrd a * 24 + a.dtstart.hh + (48 * n + 24) * a.interval + 23 < (Cal.maxOrdinal + 1) * 24
   | .minutely => (Spec.RRule.startOrd a * 24 + a.dtstart.hh) * 60 + a.dtstart.mm + (1440 * n + 1) * a.interval + 1439 <
+      (Cal.maxOrdinal + 1) * 1440
+  | .minutelyByminute =>
+      (Spec.RRule.startOrd a * 24 + a.dtstart.hh) * 60 + a.dtstart.mm + (1500 * n + 60) * a.interval + 1439 <
       (Cal.maxOrdinal + 1) * 1440
   | .secondly => ((Spec.RRule.startOrd a * 24 + a.dtstart.hh) * 60 + a.dtstart.mm) * 60 + a.dtstart.ss +
       (86400 * n + 1) * a.interval + 86399 < (Cal.maxOrdinal + 1) * 86400
